@@ -170,6 +170,10 @@ def run(ctx: Ctx):
     q = ctx.quick
     ctx.mc("MC_LocalTimeArith", MC_CFG.format(upd=7), workers="auto", tag="upd7")
     ctx.mc("MC_LocalTimeArith", MC_CFG.format(upd=24 if q else 60), workers="auto", tag="upd24")
+    # the same law for ALL integers and the real units-per-day constants, symbolically (Apalache); and its refutation of a
+    # deliberately wrong variant (non-vacuity)
+    ctx.apalache("APA_LocalTimeArith", "AlgorithmIsModular", cinit="ConstInit")
+    ctx.apalache("APA_LocalTimeArithNeg", "AlgorithmIsModular", cinit="ConstInit", expect_violation=True)
     total = 40_000 if q else 1_000_000
     parts = parallel_map(gen, [(ctx.seed * 91 + k, total // 16) for k in range(16)])
     for e in parts[0][:40]:
